@@ -8,6 +8,10 @@
 //!          hbm = (address of the first margin byte) mod 4096; container = bytes [pre, pre+n)
 //!          tcode: 0 uN / [u8;N], 1 BeN, 2 [u8;N], 3 BeSize, 4 iN, 6 LeN, 8 usize, 10 isize, 12 LeSize
 //!                 (odd = big-endian wrapper)
+//!          WIDE types (tsize > 16; tcode 2 [u8;N], 14 [u16;N], 16 [u32;N], 18 [u64;N]): a value does not
+//!          fit a number token, it travels as its memory image: the value to store is the list token
+//!          (b / d = 0), an element buffer is the concatenation of the images, a loaded value comes back
+//!          in `buf after` (n = 0)
 //! obs :  { kind n [buf after] [changed positions] [new bytes] }*
 //!          kind 0 Ok, 1 OutOfBounds, 2 Overflow, 3 PartialBuffer, 4 Misaligned, 5 TooBig,
 //!               6 InvalidBackendAddress, 7 panic, 8 other error
@@ -276,6 +280,133 @@ fn typed<T: Elem>(cn: &Cont, code: u64, a: u64, b: u128, c: u128, d: u128, l: &[
     }
 }
 
+// ------------------------------------------------------------------ wide element types
+/// object of type T whose memory image is the given bytes
+fn w_from<T: ByteValued>(b: &[u128]) -> T {
+    assert!(b.len() == std::mem::size_of::<T>());
+    let mut v = std::mem::MaybeUninit::<T>::uninit();
+    for (i, x) in b.iter().enumerate() {
+        // SAFETY: i < size_of::<T>(); every byte is written before assume_init; T is plain data
+        unsafe { (v.as_mut_ptr() as *mut u8).add(i).write(*x as u8) };
+    }
+    // SAFETY: fully initialised
+    unsafe { v.assume_init() }
+}
+/// memory image of an object
+fn w_to<T: ByteValued>(v: &T, out: &mut Vec<u128>) {
+    let p = v as *const T as *const u8;
+    for i in 0..std::mem::size_of::<T>() {
+        // SAFETY: inside the object
+        out.push(unsafe { p.add(i).read() } as u128);
+    }
+}
+fn w_vec<T: ByteValued>(l: &[u128]) -> Vec<T> {
+    l.chunks(std::mem::size_of::<T>()).map(|c| w_from::<T>(c)).collect()
+}
+fn w_flat<T: ByteValued>(v: &[T]) -> Vec<u128> {
+    let mut out = Vec::new();
+    for x in v {
+        w_to(x, &mut out);
+    }
+    out
+}
+
+/// the typed operations for element types wider than 16 bytes (values as byte images)
+fn typed_wide<T: ByteValued>(cn: &Cont, code: u64, a: u64, b: u128, c: u128, d: u128, l: &[u128]) -> Out {
+    let bu = b as u64 as usize;
+    let au = a as usize;
+    let img = |v: &T| {
+        let mut o = Vec::new();
+        w_to(v, &mut o);
+        o
+    };
+    match code {
+        4 => unit(cn.write_obj(w_from::<T>(l), a)),
+        5 => match cn.read_obj::<T>(a) {
+            Ok(v) => (0, 0, img(&v)),
+            Err(k) => (k, 0, vec![]),
+        },
+        8 => match cn.vs().get_ref::<T>(au) {
+            Ok(r) => {
+                r.store(w_from::<T>(l));
+                (0, 0, vec![])
+            }
+            Err(e) => (verr(&e), 0, vec![]),
+        },
+        9 => match cn.vs().get_ref::<T>(au) {
+            Ok(r) => (0, 0, img(&r.load())),
+            Err(e) => (verr(&e), 0, vec![]),
+        },
+        10 => match cn.vs().get_array_ref::<T>(au, bu) {
+            Ok(r) => {
+                r.store(c as u64 as usize, w_from::<T>(l));
+                (0, 0, vec![])
+            }
+            Err(e) => (verr(&e), 0, vec![]),
+        },
+        11 => match cn.vs().get_array_ref::<T>(au, bu) {
+            Ok(r) => (0, 0, img(&r.load(c as u64 as usize))),
+            Err(e) => (verr(&e), 0, vec![]),
+        },
+        12 => {
+            let mut buf: Vec<T> = w_vec(l);
+            match cn.vs().get_array_ref::<T>(au, bu) {
+                Ok(r) => {
+                    let k = r.copy_to(&mut buf[..]);
+                    (0, k as u128, w_flat(&buf))
+                }
+                Err(e) => (verr(&e), 0, w_flat(&buf)),
+            }
+        }
+        13 => {
+            let buf: Vec<T> = w_vec(l);
+            match cn.vs().get_array_ref::<T>(au, bu) {
+                Ok(r) => {
+                    r.copy_from(&buf[..]);
+                    (0, 0, vec![])
+                }
+                Err(e) => (verr(&e), 0, vec![]),
+            }
+        }
+        14 => {
+            let s = cn.vs();
+            match s.get_array_ref::<T>(au, bu) {
+                Ok(r) => match s.get_slice(c as u64 as usize, d as u64 as usize) {
+                    Ok(dst) => {
+                        r.copy_to_volatile_slice(dst);
+                        (0, 0, vec![])
+                    }
+                    Err(e) => (verr(&e), 0, vec![]),
+                },
+                Err(e) => (verr(&e), 0, vec![]),
+            }
+        }
+        15 => {
+            let mut buf: Vec<T> = w_vec(l);
+            match cn.vs().get_slice(au, bu) {
+                Ok(s) => {
+                    let k = s.copy_to::<T>(&mut buf[..]);
+                    (0, k as u128, w_flat(&buf))
+                }
+                Err(e) => (verr(&e), 0, w_flat(&buf)),
+            }
+        }
+        16 => {
+            let buf: Vec<T> = w_vec(l);
+            match cn.vs().get_slice(au, bu) {
+                Ok(s) => {
+                    s.copy_from::<T>(&buf[..]);
+                    (0, 0, vec![])
+                }
+                Err(e) => (verr(&e), 0, vec![]),
+            }
+        }
+        _ => panic!("bad typed op"),
+    }
+}
+/// (size, tcode) of the wide element types
+const WIDE_TYS: [(u64, u64); 8] = [(17, 2), (24, 2), (31, 2), (32, 2), (18, 14), (20, 16), (32, 18), (256, 18)];
+
 macro_rules! arr_dispatch {
     ($sz:expr, $($args:expr),*) => {
         match $sz {
@@ -300,6 +431,14 @@ fn run_typed(cn: &Cont, code: u64, sz: u64, tc: u64, a: u64, b: u128, c: u128, d
         (0, 4) => typed::<u32>(cn, code, a, b, c, d, l),
         (0, 8) => typed::<u64>(cn, code, a, b, c, d, l),
         (0, 16) => typed::<u128>(cn, code, a, b, c, d, l),
+        (0 | 2, 17) => typed_wide::<[u8; 17]>(cn, code, a, b, c, d, l),
+        (0 | 2, 24) => typed_wide::<[u8; 24]>(cn, code, a, b, c, d, l),
+        (0 | 2, 31) => typed_wide::<[u8; 31]>(cn, code, a, b, c, d, l),
+        (0 | 2, 32) => typed_wide::<[u8; 32]>(cn, code, a, b, c, d, l),
+        (14, 18) => typed_wide::<[u16; 9]>(cn, code, a, b, c, d, l),
+        (16, 20) => typed_wide::<[u32; 5]>(cn, code, a, b, c, d, l),
+        (18, 32) => typed_wide::<[u64; 4]>(cn, code, a, b, c, d, l),
+        (18, 256) => typed_wide::<[u64; 32]>(cn, code, a, b, c, d, l),
         (0, s) | (2, s) => arr_dispatch!(s, cn, code, a, b, c, d, l),
         (1, 2) => typed::<Be16>(cn, code, a, b, c, d, l),
         (1, 4) => typed::<Be32>(cn, code, a, b, c, d, l),
@@ -550,6 +689,39 @@ fn pick_cnt(rng: &mut Rng, nn: u64, off: u64, sz: u64) -> u64 {
     }
 }
 
+/// one typed operation on a wide element type (values as byte images in the list token)
+fn gen_wide_op(rng: &mut Rng, nn: u64, code: u64, sz: u64, tc: u64, off: u64) -> Vec<Tok> {
+    match code {
+        4 | 8 => op_tokens(code, sz, tc, off, 0, 0, 0, rand_bytes(rng, sz)),
+        5 | 9 => op_tokens(code, sz, tc, off, 0, 0, 0, vec![]),
+        10 | 11 => {
+            let cnt = pick_cnt(rng, nn, off, sz);
+            let idx = match rng.below(6) {
+                0 => cnt,
+                1 => cnt.saturating_sub(1),
+                _ => rng.below(cnt.min(8) + 1),
+            };
+            op_tokens(code, sz, tc, off, cnt as u128, idx as u128, 0, if code == 10 { rand_bytes(rng, sz) } else { vec![] })
+        }
+        12 | 13 => {
+            let cnt = pick_cnt(rng, nn, off, sz);
+            let k = rng.below(if sz > 64 { 3 } else { 6 });
+            op_tokens(code, sz, tc, off, cnt as u128, 0, 0, rand_bytes(rng, k * sz))
+        }
+        14 => {
+            let cnt = pick_cnt(rng, nn, off, sz);
+            let off2 = pick_off(rng, nn);
+            let cnt2 = rng.below(nn.saturating_sub(off2) + 2);
+            op_tokens(code, sz, tc, off, cnt as u128, off2 as u128, cnt2 as u128, vec![])
+        }
+        _ => {
+            let b = rng.below(nn.saturating_sub(off) + 2);
+            let k = rng.below(if sz > 64 { 3 } else { 6 });
+            op_tokens(code, sz, tc, off, b as u128, 0, 0, rand_bytes(rng, k * sz))
+        }
+    }
+}
+
 fn gen_op(rng: &mut Rng, nn: u64) -> Vec<Tok> {
     let code = match rng.below(24) {
         x @ 0..=17 => x,
@@ -560,6 +732,14 @@ fn gen_op(rng: &mut Rng, nn: u64) -> Vec<Tok> {
         22 => 15,
         _ => 16,
     };
+    if matches!(code, 4 | 5 | 8..=16) && rng.chance(1, 7) {
+        let (sz, tc) = *rng.pick(&WIDE_TYS);
+        let mut off = pick_off(rng, nn);
+        if rng.chance(1, 2) {
+            off = nn.saturating_sub(sz + rng.below(3));
+        }
+        return gen_wide_op(rng, nn, code, sz, tc, off);
+    }
     match code {
         0 | 2 => {
             let a = pick_off(rng, nn);
@@ -672,6 +852,21 @@ fn gen(rng: &mut Rng, tier: Tier, emit: &mut dyn FnMut(Vec<Tok>)) {
                 c.extend(op_tokens(11, sz, tc, a, 1, 0, 0, vec![]));
                 c.extend(op_tokens(15, sz, tc, 0, nn as u128, 0, 0, (0..3).map(|_| rand_val(rng, sz)).collect()));
                 emit(c);
+            }
+        }
+    }
+    // 2b. wide element types (17..256 bytes): every typed route, at offsets around the end of
+    //     containers around the element size; the store is followed by loads through the other routes
+    for &(sz, tc) in &WIDE_TYS {
+        for nn in [sz - 1, sz, sz + 1, sz + 9, 2 * sz + 3] {
+            for a in [0u64, 1, nn.saturating_sub(sz + 1), nn.saturating_sub(sz), nn.saturating_sub(sz) + 1, nn] {
+                for kind in if quick { vec![0u64] } else { vec![0u64, 1, 2] } {
+                    let mut c = header(kind, if kind == 0 { (a + sz) % 16 } else { 0 }, nn, (sz * 7 + a) % 256);
+                    for code in [4u64, 5, 9, 8, 5, 11, 10, 9, 13, 12, 16, 15, 14] {
+                        c.extend(gen_wide_op(rng, nn, code, sz, tc, a));
+                    }
+                    emit(c);
+                }
             }
         }
     }
